@@ -535,7 +535,8 @@ def trimNotifications (upperIsTrimPlusOne : Bool) (db : Db) (now retention : Int
 
 /-! ### secondary-index reads (`server/secondary_indexes.go`) -/
 
-/-- the regular expression `^__oxia/idx/[^/]+/([^\x01]+)\x01(.+)$`: `(secondaryKey, escapedPrimaryKey)` -/
+/-- the regular expression `^__oxia/idx/[^/]+/([^\x01]*)\x01(.+)$`: `(secondaryKey, escapedPrimaryKey)`; the
+    secondary key may be empty (fact `secondaryIndexRegexAllowsEmptyKey`; fixed D-52) -/
 def parseIdxKey (k : Key) : Option (Key × Key) :=
   let pfx := str "__oxia/idx/"
   if !pfx.isPrefixOf k then none
@@ -548,8 +549,7 @@ def parseIdxKey (k : Key) : Option (Key × Key) :=
       | 47 :: r2 =>
         let sk := r2.takeWhile (· ≠ 1)
         let r3 := r2.drop sk.length
-        if sk.isEmpty then none
-        else match r3 with
+        match r3 with
           | 1 :: pk => if pk.isEmpty || pk.any (· == 10) then none else some (sk, pk)
           | _ => none
       | _ => none
